@@ -118,5 +118,66 @@ pub mod ds {
             assert(paths_enc(g, fids, a, b) + Seq::<u8>::empty() =~= paths_enc(g, fids, a, b));
         }
     }
+
+    // --- reading: the record grammar as a spec-level parser (C07)
+    /// total byte length of the first record of s, or -1 if s ends before the record is complete
+    pub open spec fn rec_len(s: Seq<u8>) -> int {
+        if s.len() < 2 { -1 } else {
+            let l = dec_u16(s.subrange(0, 2));
+            if l & 0x8000 == 0 {
+                if s.len() >= 2 + l { 2 + l as int } else { -1 }
+            } else {
+                let no = (l & 0x7fff) as int;
+                if s.len() < 2 + 3 * no + 2 { -1 } else {
+                    let nd = dec_u16(s.subrange(2 + 3 * no, 2 + 3 * no + 2)) as int;
+                    let t = 2 + 3 * no + 2 + 3 * nd + 8;
+                    if s.len() >= t { t } else { -1 }
+                }
+            }
+        }
+    }
+    pub open spec fn is_path_rec(s: Seq<u8>) -> bool { dec_u16(s.subrange(0, 2)) & 0x8000 == 0 }
+    /// the j-th 3-byte id of an id list starting at s
+    pub open spec fn id_at(s: Seq<u8>, j: int) -> u32 { dec_u24(s.subrange(3 * j, 3 * j + 3)) }
+    /// every id a (possibly torn) build record refers to is below n  (n = number of path records before it)
+    pub open spec fn rec_ids_ok(s: Seq<u8>, n: int) -> bool {
+        s.len() >= 2 && !is_path_rec(s) ==> ({
+            let no = (dec_u16(s.subrange(0, 2)) & 0x7fff) as int;
+            let body = s.subrange(2, s.len() as int);
+            &&& forall|j: int| 0 <= j < no && 3 * j + 3 <= body.len() ==> (#[trigger] id_at(body, j)) < n
+            &&& (s.len() >= 2 + 3 * no + 2 ==> ({
+                    let nd = dec_u16(s.subrange(2 + 3 * no, 2 + 3 * no + 2)) as int;
+                    let dbody = s.subrange(2 + 3 * no + 2, s.len() as int);
+                    forall|j: int| 0 <= j < nd && 3 * j + 3 <= dbody.len() ==> (#[trigger] id_at(dbody, j)) < n }))
+        })
+    }
+    /// a byte stream made of complete well-formed records, possibly followed by a torn one
+    pub open spec fn wf_stream(s: Seq<u8>, n: int) -> bool
+        decreases s.len()
+    {
+        rec_ids_ok(s, n) && (rec_len(s) > 0 ==> n + 1 <= 0x100_0000 && wf_stream(s.subrange(rec_len(s), s.len() as int), if is_path_rec(s) { n + 1 } else { n }))
+    }
+    /// length of the longest prefix of s made of complete records
+    pub open spec fn valid_len(s: Seq<u8>) -> int
+        decreases s.len()
+    {
+        if rec_len(s) > 0 { rec_len(s) + valid_len(s.subrange(rec_len(s), s.len() as int)) } else { 0 }
+    }
+    pub open spec fn took<R: ?Sized>(r0: &R, r1: &R, n: int) -> bool {
+        0 <= n <= crate::vx_unread(r0).len() && crate::vx_unread(r1) =~= crate::vx_unread(r0).subrange(n, crate::vx_unread(r0).len() as int)
+        && crate::vx_consumed(r1) == crate::vx_consumed(r0) + n
+    }
+
+    // --- C08: which step a record is applied to
+    pub open spec fn same_producer(g: Graph, fs: Seq<FileId>, k: int, b: BuildId) -> bool {
+        forall|j: int| 0 <= j < k ==> gs::fid_ok(g, #[trigger] fs[j]) && gs::files(g)[ix(fs[j])].input == Some(b)
+    }
+    /// Some(b) iff the record names at least one output and every named output is currently produced by b
+    pub open spec fn applies_to(g: Graph, fs: Seq<FileId>, r: Option<BuildId>) -> bool {
+        match r {
+            Some(b) => fs.len() > 0 && same_producer(g, fs, fs.len() as int, b),
+            None => fs.len() == 0 || forall|b: BuildId| !same_producer(g, fs, fs.len() as int, b),
+        }
+    }
     }
 }
